@@ -16,7 +16,7 @@ import (
 // ---------------------------------------------------------------------------
 // Point ids: small integers <-> fixed UUIDs
 
-const MaxID = 12
+const MaxID = 12 // default size of the id universe (Config.NIDs overrides)
 
 func UUIDOf(i int) uuid.UUID {
 	var u uuid.UUID
@@ -24,11 +24,12 @@ func UUIDOf(i int) uuid.UUID {
 	u[0] = byte(0xA0 - 7*i)
 	u[6] = 0x40
 	u[8] = 0x80
+	u[14] = byte(i >> 8)
 	u[15] = byte(i)
 	return u
 }
 
-func IDOf(u uuid.UUID) int { return int(u[15]) }
+func IDOf(u uuid.UUID) int { return int(u[14])<<8 | int(u[15]) }
 
 // ---------------------------------------------------------------------------
 // Ladders. Rank order = numeric order; IEEE-equal values share a rank.
@@ -126,7 +127,7 @@ func PoolRelations(nmax int) map[string]any {
 			lg[a-1][k-1] = int(math.Round(1e5 * math.Log10(float64(a)/float64(k))))
 		}
 	}
-	return map[string]any{"lower": lower, "less": less, "prefix": prefix, "log": lg, "empty": StrIdx("")}
+	return map[string]any{"lower": lower, "less": less, "prefix": prefix, "log": lg, "empty": StrIdx(""), "hav": havTable()}
 }
 
 // ---------------------------------------------------------------------------
@@ -219,4 +220,25 @@ func canon(sb *strings.Builder, v any) {
 	default:
 		panic(fmt.Sprintf("canon: unsupported type %T", v))
 	}
+}
+
+// haversine reference (float64, from the textbook formula; independent of the
+// code under test): distances in metres between all pairs of CoordPool.
+func havRef(a, b [2]int) float64 {
+	const rad = math.Pi / 180
+	const R = 6371000.0
+	la1, lo1, la2, lo2 := float64(a[0])*rad, float64(a[1])*rad, float64(b[0])*rad, float64(b[1])*rad
+	sa, so := math.Sin((la1-la2)/2), math.Sin((lo1-lo2)/2)
+	h := sa*sa + math.Cos(la1)*math.Cos(la2)*so*so
+	return 2 * R * math.Asin(math.Sqrt(h))
+}
+
+func havTable() []map[string]any {
+	var out []map[string]any
+	for _, a := range CoordPool {
+		for _, b := range CoordPool {
+			out = append(out, map[string]any{"a": []int{a[0], a[1]}, "b": []int{b[0], b[1]}, "d": int(math.Round(havRef(a, b)))})
+		}
+	}
+	return out
 }
